@@ -175,34 +175,10 @@ func Payload(t *rapid.T, label string, max int) []byte {
 		return pseudo(rapid.Uint32().Draw(t, label+"_seed"), rapid.IntRange(65537, 90000).Draw(t, label+"_n"), 31)
 	case 12, 13: // "book": lines drawn from a small pool, so that long matches occur at every distance of the
 		// 32 KiB window and (when the caller allows > 32 KiB) across every lap of a ring buffer of history
-		n := size(200, 6000)
 		if max >= 70000 && rapid.IntRange(0, 2).Draw(t, label+"_big") > 0 {
-			n = rapid.IntRange(33000, max).Draw(t, label+"_bign")
+			return Book(t, label, 33000, max)
 		}
-		seed := rapid.Uint32().Draw(t, label+"_seed")
-		npool := rapid.SampledFrom([]int{40, 200, 1000}).Draw(t, label+"_pool")
-		x := uint64(seed)*2862933555777941757 + 3037000493
-		next := func() uint64 {
-			x = x*6364136223846793005 + 1442695040888963407
-			return x >> 33
-		}
-		pool := make([][]byte, npool)
-		for i := range pool {
-			l := 8 + int(next()%300)
-			ln := make([]byte, l)
-			for k := range ln {
-				ln[k] = byte(next())
-			}
-			pool[i] = ln
-		}
-		out := make([]byte, 0, n+400)
-		for len(out) < n {
-			out = append(out, pool[next()%uint64(npool)]...)
-			if next()%4 == 0 {
-				out = append(out, byte(next())) // shifts alignment
-			}
-		}
-		return out[:n]
+		return Book(t, label, 200, min(6000, max))
 	default: // small structured
 		n := size(1, 300)
 		out := make([]byte, n)
@@ -215,6 +191,38 @@ func Payload(t *rapid.T, label string, max int) []byte {
 		}
 		return out
 	}
+}
+
+// Book returns lo..hi bytes made of lines drawn from a small pool of random lines.
+func Book(t *rapid.T, label string, lo, hi int) []byte {
+	if lo > hi {
+		lo = hi
+	}
+	n := rapid.IntRange(lo, hi).Draw(t, label+"_bookn")
+	seed := rapid.Uint32().Draw(t, label+"_seed")
+	npool := rapid.SampledFrom([]int{40, 200, 1000}).Draw(t, label+"_pool")
+	x := uint64(seed)*2862933555777941757 + 3037000493
+	next := func() uint64 {
+		x = x*6364136223846793005 + 1442695040888963407
+		return x >> 33
+	}
+	pool := make([][]byte, npool)
+	for i := range pool {
+		l := 8 + int(next()%300)
+		ln := make([]byte, l)
+		for k := range ln {
+			ln[k] = byte(next())
+		}
+		pool[i] = ln
+	}
+	out := make([]byte, 0, n+400)
+	for len(out) < n {
+		out = append(out, pool[next()%uint64(npool)]...)
+		if next()%4 == 0 {
+			out = append(out, byte(next())) // shifts alignment
+		}
+	}
+	return out[:n]
 }
 
 // pseudo returns n bytes of an LCG restricted to an alphabet of the given size.
@@ -553,16 +561,16 @@ type Plan struct {
 	SrcChunk uint32   `json:"src_chunk,omitempty"`
 	SrcList  []uint32 `json:"src_list,omitempty"`
 	SrcExact bool     `json:"src_exact"`
-	Closed   bool     `json:"closed"`   // source gets closed once everything is supplied
+	Closed   bool     `json:"closed"` // source gets closed once everything is supplied
 	// LateClose: the end of the stream is reported by a separate empty supply
 	// after the last byte (as a file or a socket does), not together with it.
-	LateClose bool `json:"late_close,omitempty"`
-	DstMode  uint8    `json:"dst_mode"` // 0 ample, 1 growing, 2 fresh windows
-	DstStep  uint32   `json:"dst_step,omitempty"`
-	DstFill  uint8    `json:"dst_fill,omitempty"`
-	WorkMode uint8    `json:"work_mode,omitempty"`
-	WorkFill uint8    `json:"work_fill,omitempty"`
-	TokCap   uint32   `json:"tok_cap,omitempty"`
+	LateClose bool   `json:"late_close,omitempty"`
+	DstMode   uint8  `json:"dst_mode"` // 0 ample, 1 growing, 2 fresh windows
+	DstStep   uint32 `json:"dst_step,omitempty"`
+	DstFill   uint8  `json:"dst_fill,omitempty"`
+	WorkMode  uint8  `json:"work_mode,omitempty"`
+	WorkFill  uint8  `json:"work_fill,omitempty"`
+	TokCap    uint32 `json:"tok_cap,omitempty"`
 }
 
 // OneShot is the reference plan: everything available, closed, ample destination.
